@@ -135,6 +135,9 @@ package snowflake_client
 //@   requires p != nil
 //@   ensures {value-or-error} (err == nil) <==> (w != nil)
 //@   at call Catch assert {only-below-capacity-and-not-melted} p.activePeers.n < p.Tongue.max && held(&p.collectLock)
+//   End closes melt and then takes collectLock: a Collect that looked at melt *before* it had the lock can pass the
+//   check, wait for the lock behind End and catch a peer nobody will ever close.
+//@   at call select assert {melt-is-looked-at-under-the-lock-that-End-takes} held(&p.collectLock)
 //@   at call PushBack assert {files-what-was-caught} calls(Catch) == 1
 //@   at entry ghost caughtOK = false
 //@   after call Catch ghost caughtOK = ret1 == nil
